@@ -712,7 +712,8 @@ class Message:
         if not parsed.hostname:
             raise error.MalformedUrlError("CoAP URIs need a hostname")
 
-        if parsed.username or parsed.password:
+        if "@" in parsed.netloc:
+            # even an empty userinfo is not part of the coap URI syntax
             raise error.MalformedUrlError("User name and password not supported.")
 
         try:
